@@ -61,7 +61,7 @@ func (cc concCase) describe() map[string]any {
 
 func TestC03Linearizable(t *testing.T) {
 	rapid.Check(t, func(t *rapid.T) {
-		cfg := cGenCfg{DataOps: true, NameOps: true, DirRename: true, BigTrunc: rapid.IntRange(0, 3).Draw(t, "bigtrunc") == 0,
+		cfg := cGenCfg{RootPlus: true, DataOps: true, NameOps: true, DirRename: true, BigTrunc: rapid.IntRange(0, 3).Draw(t, "bigtrunc") == 0,
 			Focus: rapid.Bool().Draw(t, "focus"), FocusDir: rapid.IntRange(0, 2).Draw(t, "focusdir")}
 		cc := genConcCase(t, cfg, 15)
 		// half of the cases on a tiny data region, where freed blocks are handed out again at once
@@ -156,7 +156,7 @@ func TestC03Windows(t *testing.T) {
 		}
 		defer func() { w.S.Stop() }()
 		w.FullDisk = fulldisk
-		cfg := cGenCfg{DataOps: true, NameOps: true, DirRename: true, Focus: true, FocusDir: rapid.IntRange(0, 2).Draw(t, "dir")}
+		cfg := cGenCfg{RootPlus: true, DataOps: true, NameOps: true, DirRename: true, Focus: true, FocusDir: rapid.IntRange(0, 2).Draw(t, "dir")}
 		var tag uint32
 		// prefix: executed sequentially, part of the history
 		var pre []cOp
